@@ -192,7 +192,7 @@ def preprocessC (src : Text) : Outcome Text :=
 
 /-! ## `check_nesting_depth` (on the UTF-8 bytes) -/
 
-def MAX_NESTING_DEPTH : Nat := 24
+def MAX_NESTING_DEPTH : Nat := 16
 
 def utf8 (t : Text) : List UInt8 := t.flatMap String.utf8EncodeChar
 
@@ -368,6 +368,47 @@ def sourceLocation (source : Text) (origins : List Nat) (pre : List UInt8) (posi
     | .panic w => .panic w
   | .err k => .err k
   | .panic w => .panic w
+
+/-! ## `helpers::parse_timestamp` (arithmetic and table access; the splitting of the literal is not modelled) -/
+
+/-- `is_leap_year` -/
+def isLeapYear (y : Int) : Bool := (y % 4 == 0 && y % 100 != 0) || y % 400 == 0
+
+def DAYS_IN_MONTH : List Nat := [31, 28, 31, 30, 31, 30, 31, 31, 30, 31, 30, 31]
+
+def yearDays (y : Int) : Int := if isLeapYear y then 366 else 365
+
+/-- `for y in 1970..year { days += … }  for y in (year..1970).rev() { days -= … }` -/
+def daysBeforeYear (year : Int) : Int :=
+  ((intRange 1970 year).map yearDays).sum - ((intRange year 1970).map yearDays).sum
+
+/-- `for m in 1..month { days += days_in_month[(m - 1) as usize] as i64; if m == 2 && leap { days += 1 } }` -/
+def monthDays (year : Int) : List Nat → Outcome Int
+  | [] => .ok 0
+  | m :: ms =>
+    match idx DAYS_IN_MONTH (m - 1), monthDays year ms with
+    | .ok d, .ok rest => .ok ((d : Int) + (if m = 2 ∧ isLeapYear year then 1 else 0) + rest)
+    | .panic w, _ => .panic w
+    | _, .panic w => .panic w
+    | .err k, _ => .err k
+    | _, .err k => .err k
+
+def i64Sat (x : Int) : Int := if x > i64Max then i64Max else if x < i64Min then i64Min else x
+
+/-- `parse_timestamp` after the literal is split into its numbers: `month`/`day` as parsed (`u32`),
+`tod` = seconds of the time of day, `tz` = signed hour offset; result in nanoseconds.
+After the fix: month clamped to 1..=12, day to ≥ 1, the final multiplication saturates. -/
+def timestampNs (year : Int) (month day : Nat) (tod tzHours : Int) : Outcome Int :=
+  let month := max 1 (min month 12)
+  let day := max 1 day
+  match monthDays year ((List.range (month - 1)).map (· + 1)), usizeSub day 1 with
+  | .ok md, .ok d1 =>
+    let days := daysBeforeYear year + md + (d1 : Int)
+    .ok (i64Sat ((days * 86400 + tod - tzHours * 3600) * 1000000000))
+  | .panic w, _ => .panic w
+  | _, .panic w => .panic w
+  | .err k, _ => .err k
+  | _, .err k => .err k
 
 /-! ## the modelled prefix of `parse_inner` and the property verdict on reported locations -/
 
